@@ -2,27 +2,65 @@
    Models: Syn/Expr.v (Expr tree, Equal, ProvisionalName), Syn/Expand.v (syntax.Expand: expandRule,
    expandExpr, extractNonterm, sortTail, Rearrange, list/optional rule synthesis), Syn/ExtLang.v (the
    meaning of the extended notation: [den]).  Lemmas: Syn/Expand_proofs.v. *)
-From Coq Require Import List ZArith Bool.
-From TM Require Import Syn.Expr Syn.Expand Syn.ExtLang Syn.Expand_proofs.
+From Coq Require Import List ZArith Bool Lia.
+From TM Require Import Gram.Cfg Gram.Derive Syn.Expr Syn.Expand Syn.ExtLang Syn.Expand_proofs Syn.Expand_global Syn.Expand_derives Syn.Expand_correct.
 Import ListNotations.
 Local Open Scope Z_scope.
 
-(* FULL STATEMENT (not proved as one theorem):
-     forall M (well-formed), X original nonterminal, w,
-       ext_lang T (values M) setden X w  <->  derives (to_cfg (expand M)) (perm X) w.
-   PROVED below, universally (all expressions, all interpretations rho, all words, no size bound):
-   every step Expand performs preserves the denotation [den T rho setden] under any interpretation rho
-   of the nonterminals that gives each extracted nonterminal the meaning of the expression it was
-   extracted from:
-     - phase 1 (expandRule/expandExpr on every rule of a nonterminal, with optional, nested choice,
-       sequence, arrow/assign/append/prec wrappers, '*' '+' lists with separators, sets, lookaheads,
-       extraction and reuse by Equal): C13_expand_preserves_partial, C13_expand_expr_preserves;
-     - phase 2 (the rules written for an extracted list / optional are a correct unfolding of the list,
-       left/right recursive, with/without separator): C13_list_rules_unfold.
-   MISSING for the full statement: the global least-fixpoint argument gluing these per-nonterminal
-   equivalences together (ext_lang is the least solution of both systems) and the proof that
-   Rearrange applies one permutation consistently; both are covered by the correspondence run (exact
-   output comparison incl. the permutation) and by the language oracle on all short words. *)
+(* FULL STATEMENT:  forall M (well-formed), X original nonterminal, w,
+       ext language of X in M  <->  derives (to_cfg (expand M)) (perm X) w.
+   PROVED: C13_expand_correct is this statement for the model [expand] of syntax.Expand as a whole (phase 1
+   with extraction and reuse, sortTail / Rearrange, phase 2), for all expression kinds, with the language of a
+   table of nonterminal values defined as the least solution (Knaster-Tarski) of its equations.  Its side
+   conditions are one boolean, [expand_checks] (no Fatal branch, references of the input in range, the
+   permutation built by sortTail is a permutation, references of the intermediate table in range), which
+   ./check evaluates on every generated model.  C13_flat_table_is_cfg identifies the least solution of a table
+   of flat choices with [Derive.derives] of the grammar [to_cfg] reads from it; tables that still contain set /
+   lookahead nonterminals are outside that bridge (sets are resolved by C15).
+   NOT PROVED: that [expand_checks] holds for every well-formed model (i.e. that sortTail always builds a
+   permutation); it is evaluated per run instead.  The per-step theorems keep the suffix _partial. *)
+
+(* the whole of Expand *)
+Theorem C13_expand_correct :
+  forall setden m,
+    expand_checks m = true -> 0 <= nterms m ->
+    forall X, nterms m <= X < nterms m + Z.of_nat (length (m_nonterms m)) -> forall w,
+      lfp (nterms m) setden (map nt_value (m_nonterms m)) X w <->
+      lfp (nterms m) setden (map snd (res_nonterms (expand m))) (perm_sym (nterms m) (x_perm (snd (phase1 m))) X) w.
+Proof. exact expand_correct_checked. Qed.
+
+(* the whole of Expand, up to the order of the nonterminals *)
+Theorem C13_expand_preserves :
+  forall setden m vals1 st,
+    phase1 m = (vals1, st) -> x_fatal st = false -> 0 <= nterms m ->
+    (forall i, (i < length (m_nonterms m))%nat ->
+        bounded (nterms m + Z.of_nat (length (m_nonterms m))) (value_at m i) = true) ->
+    forall X, nterms m <= X < nterms m + Z.of_nat (length (m_nonterms m)) -> forall w,
+      lfp (nterms m) setden (map nt_value (m_nonterms m)) X w <->
+      lfp (nterms m) setden (phase2_table (nterms m) (vals1 ++ map snd (x_extras st))) X w.
+Proof. exact expand_language_preserved. Qed.
+
+(* a table of flat choices (what Expand produces for grammars without set / lookahead nonterminals) read as a
+   plain grammar: least solution = derivations *)
+Theorem C13_flat_table_is_cfg :
+  forall T setden vals g, 0 <= T ->
+    to_cfg T (fun _ => []) vals = Some g ->
+    (forall k, (k < length vals)%nat ->
+      exists alts, nth k vals (EChoice []) = EChoice alts /\
+        forall a, In a alts -> exists rhs, rhs_of a = Some rhs /\ forall s, In s rhs -> 0 <= s) ->
+    forall X w, T <= X -> (lfp T setden vals X w <-> derives g X w).
+Proof. exact to_cfg_language. Qed.
+
+(* the least solution is a solution: X derives w iff the value of X denotes w under the least solution *)
+Theorem C13_language_is_a_solution :
+  forall T setden vals Y w, in_sys T vals Y ->
+    (lfp T setden vals Y w <-> den T (lfp T setden vals) setden (value_of T vals Y) w).
+Proof. exact lfp_fixpoint. Qed.
+
+(* every list extracted by Expand either is non-empty or has no separator (the comment in Expand) *)
+Theorem C13_extracted_lists_invariant :
+  forall m vals st, phase1 m = (vals, st) -> Forall (fun nv => list_inv (snd nv)) (x_extras st).
+Proof. exact phase1_extras_inv. Qed.
 
 (* multiConcat is the product of the two families of alternatives *)
 Theorem C13_multi_concat_is_product :
@@ -99,6 +137,20 @@ Example C13_example_shape :
   ext_derives 3 (fun _ => [0; 1]) (map nt_value (m_nonterms ex_model)) 3 [0; 1] = false.
 Proof. vm_compute. repeat split; reflexivity. Qed.
 
+Example C13_example_checks : expand_checks ex_model = true /\ 0 <= nterms ex_model.
+Proof. split; [vm_compute; reflexivity | vm_compute; discriminate]. Qed.
+
+Example C13_example_hypotheses :
+  x_fatal (snd (phase1 ex_model)) = false /\
+  (forall i, (i < length (m_nonterms ex_model))%nat ->
+     bounded (nterms ex_model + Z.of_nat (length (m_nonterms ex_model))) (value_at ex_model i) = true).
+Proof. split; [vm_compute; reflexivity|]. intros [|i] Hi; [vm_compute; reflexivity | cbn in Hi; lia]. Qed.
+
+Print Assumptions C13_expand_correct.
+Print Assumptions C13_expand_preserves.
+Print Assumptions C13_flat_table_is_cfg.
+Print Assumptions C13_language_is_a_solution.
+Print Assumptions C13_extracted_lists_invariant.
 Print Assumptions C13_multi_concat_is_product.
 Print Assumptions C13_expand_expr_preserves.
 Print Assumptions C13_expand_preserves_partial.
